@@ -580,7 +580,9 @@ def dispatch(ctx):
     for rx, trait_m, nargs in ((r"^passage::adapter::filter::\{impl#\d+\}::filter::\{closure#0\}$", "FilterAdapter::filter", 5),
                                (r"^passage::adapter::strategy::\{impl#\d+\}::select::\{closure#0\}$", "StrategyAdapter::select", 5),
                                (r"^passage::adapter::authentication::\{impl#\d+\}::authenticate::\{closure#0\}$", "AuthenticationAdapter::authenticate", 6),
-                               (r"^passage::adapter::localization::\{impl#\d+\}::localize::\{closure#0\}$", "LocalizationAdapter::localize", 3)):
+                               (r"^passage::adapter::localization::\{impl#\d+\}::localize::\{closure#0\}$", "LocalizationAdapter::localize", 3),
+                               (r"^passage::adapter::status::\{impl#\d+\}::status::\{closure#0\}$", "StatusAdapter::status", 3),
+                               (r"^passage::adapter::discovery::\{impl#\d+\}::discover::\{closure#0\}$", "DiscoveryAdapter::discover", 0)):
         for b in ctx.prog.find_bodies(rx):
             if calls(b, "Iterator::next"):
                 continue   # the chain, checked separately
@@ -604,6 +606,6 @@ def dispatch(ctx):
             # parameter order = declaration order
             decl = [b.parent and None]
             label = b.key.split("::")[3] + "::" + trait_m.split("::")[-1]
-            ctx.check(ok and names is not None and len(set(names)) == nargs, R, "C18/config-mapping/dispatch/" + label, b.loc,
+            ctx.check(ok and names is not None and len(set(names)) == nargs and (nargs > 0 or len(cs) >= 1), R, "C18/config-mapping/dispatch/" + label, b.loc,
                       reason="%s does not forward its arguments unchanged to the wrapped adapter (%s)" % (label, names),
                       detail="%s: %d arms forward (%s)" % (label, len(cs), ", ".join(names or [])))
